@@ -1,9 +1,10 @@
 import re
 from re import Pattern
 
+# Note `^` is the start of the text only (no re.MULTILINE): whether a `...` happens to follow a
+# soft line break in the source must not influence the result, or reformatting would not be stable.
 ELLIPSIS_PATTERN: Pattern[str] = re.compile(
     r"(^|[\w\"\'“‘])(\s*)(\.\.\.)([.,:;?!)\-—\"\'”’]?)(\s*)",
-    re.MULTILINE,
 )
 
 
